@@ -47,6 +47,8 @@ structure RState where
   env : Env
   x : XState
   handled : Nat                                -- on_error_handler calls
+  /-- the `i18n:name` streams of the translations being rendered (innermost first): name ↦ rendered markup -/
+  tmaps : List (List (Str × Str)) := []
   deriving Inhabited
 
 structure ECfg where
@@ -482,6 +484,27 @@ def onErrorHandle (cfg : ECfg) (key depth savedLen : Nat) (ex : Exc) (s' : RStat
     let env' : Env := { s'.env with own := (lit "error", Val.errorInfo ex.cls ex.msg line col) :: s'.env.own.filter (·.1 != lit "error") }
     some { s' with streams := streams1, handled := s'.handled + 1, env := env' }
 
+/-- the `i18n:name`s a translation collects at compile time (`Compiler._translations[-1]`): those of its body that
+are not inside a nested translation, in the order the compiler visits them -/
+def namesOf : Nat → Node → List Str
+  | 0, _ => []
+  | f+1, n =>
+    match n with
+    | .seq ns => ns.flatMap (namesOf f)
+    | .element st en ct => namesOf f st ++ namesOf f ct ++ (match en with | some e => namesOf f e | none => [])
+    | .start _ _ _ attrs => namesOf f attrs
+    | .condition _ node orelse => namesOf f node ++ (match orelse with | some o => namesOf f o | none => [])
+    | .cache _ node | .cancel _ node | .define _ node | .repeat_ _ _ _ _ _ node => namesOf f node
+    | .onError _ fallback node => namesOf f fallback ++ namesOf f node
+    | .name nm node => nm.str :: namesOf f node
+    | .domain _ node | .txContext _ node | .target _ node | .defineSlot _ node => namesOf f node
+    | .useExternal _ slots _ => slots.flatMap (fun (_, sn) => namesOf f sn)
+    | _ => []
+
+def setTName (n : Str) (v : Str) : RM Unit := mModify (fun s => match s.tmaps with
+  | top :: rest => { s with tmaps := (top.map (fun (k, x) => if k == n then (k, v) else (k, x))) :: rest }
+  | [] => s)
+
 mutual
 def eval (cfg : ECfg) (al : List (Str × Val)) : Nat → Node → RM Unit
   | 0, _ => mUnsupported "out of fuel"
@@ -609,19 +632,25 @@ def eval (cfg : ECfg) (al : List (Str × Val)) : Nat → Node → RM Unit
         if !isSubclass cfg ex.cls ["Exception"] then .raised ex s'
         else match onErrorHandle cfg key depth savedLen ex s' with
           | none => .unsupported "on-error with __token None"
-          | some s2 => eval cfg al f fallback s2
+          | some s2 => eval cfg al f fallback { s2 with tmaps := s2.tmaps.drop (s2.tmaps.length - s.tmaps.length) }
     | .translate _ msgid node => do
+      let names := (namesOf 64 node).eraseDups
+      mModify (fun s => { s with tmaps := names.map (fun n => (n, [])) :: s.tmaps })
       pushStream
       eval cfg al f node
       let body ← popStream
+      let s ← mGet
+      let tmap := s.tmaps.headD []
+      mModify (fun s => { s with tmaps := s.tmaps.drop 1 })
+      let mapping : Option (List (Str × Str)) := if names.isEmpty then none else some tmap
       let computed := stripStr (collapseWsStr body)
       match msgid with
       | some m => do
-        let r ← liftX (fun env => callTranslate cfg env m none (some computed))
+        let r ← liftX (fun env => callTranslate cfg env m mapping (some computed))
         emit r
       | none =>
         if computed.isEmpty then pure () else do
-          let r ← liftX (fun env => callTranslate cfg env computed none (some computed))
+          let r ← liftX (fun env => callTranslate cfg env computed mapping (some computed))
           emit r
     | .domain d node => do
       let s ← mGet
@@ -640,9 +669,17 @@ def eval (cfg : ECfg) (al : List (Str × Val)) : Nat → Node → RM Unit
       let old := s.env.topFrame.targetLang
       let v ← enVal cfg al e
       modFrame (fun fr => { fr with targetLang := v })
+      -- `econtext['target_language'] = target_language` (after the D-10b fix): expressions see it too
+      setVar (lit "target_language") v
       eval cfg al f node
       modFrame (fun fr => { fr with targetLang := old })
-    | .name _ _ => mUnsupported "i18n:name"
+      setVar (lit "target_language") old
+    | .name nm node => do
+      pushStream
+      eval cfg al f node
+      let v ← popStream
+      emit (lit "${" ++ nm.str ++ lit "}")
+      setTName nm.str v
     | .defineSlot _ _ => mUnsupported "metal:define-slot"
     | .useExternal _ _ _ => mUnsupported "metal:use-macro"
     | .useInternal _ => mUnsupported "metal:define-macro"
